@@ -110,6 +110,12 @@ def rich_world(rng, d, unresolvable=True):
     hdocs[H + "pairs/" + pb] = {"type": "string"}
     store = {R.STORE_DIR + "s0.json": {idk: R.STORE_DIR + "s0.json", "items": {"$ref": "s1.json#/definitions/q"}},
              R.STORE_DIR + "s1.json": {"definitions": {"q": leaf2}}}
+    # the same relative reference text under two scopes (two documents, two nested base changes) means two things
+    ta, tb = rng.sample([{"type": "integer"}, {"type": "string"}, {"type": "array"}, {"type": "null"}, leaf], 2)
+    for ver, t in (("v1", ta), ("v2", tb)):
+        store[R.STORE_DIR + ver + "/doc.json"] = {"properties": {"v": {"$ref": "#/definitions/item"}, "w": {"$ref": "item.json"}},
+                                                  "definitions": {"item": t}}
+        store[R.STORE_DIR + ver + "/item.json"] = t
     deep = {idk: "a/", "properties": {"x": {idk: "b/", "items": {idk: "c/", "properties": {
         "y": {"$ref": R.ROOT_URL + "#/definitions/leaf"}, "z": {"$ref": R.STORE_DIR + "s0.json"},
         "b": {"x-boom": True}, "w": {"$ref": H + "h0.json"}}}}}}
@@ -137,6 +143,10 @@ def rich_world(rng, d, unresolvable=True):
         "k": {idk: "http://other.example/x/", "$ref": R.ROOT_URL + "#/definitions/leaf"},
         "k2": {"$ref": "#/definitions/deep", idk: R.ROOT_URL},
         "k3": {"items": {idk: "http://other.example/y/", "$ref": R.ROOT_URL + "#/definitions/tree"}},
+        "sa": {"$ref": R.STORE_DIR + "v1/doc.json"},
+        "sb": {"$ref": R.STORE_DIR + "v2/doc.json"},
+        "na": {idk: R.STORE_DIR + "v1/", "properties": {"w": {"$ref": "item.json"}, "v": {"$ref": "doc.json#/definitions/item"}}},
+        "nb": {idk: R.STORE_DIR + "v2/", "properties": {"w": {"$ref": "item.json"}, "v": {"$ref": "doc.json#/definitions/item"}}},
     }
     if d >= 4:
         props["q"] = {"not": {"$ref": "#/definitions/deep"}}
@@ -198,6 +208,8 @@ def rich_world(rng, d, unresolvable=True):
                 out[n] = {"v": ig2.any(1)}
             elif n == "s":
                 out[n] = [ig2.any(1), ig2.any(1)]
+            elif n in ("sa", "sb", "na", "nb"):
+                out[n] = {"v": rng.choice([1, "s", [], None, ig.any(1)]), "w": rng.choice([1, "s", [], None, ig.any(1)])}
             elif n in ("f", "t"):
                 out[n] = rng.choice(["x", "yy", 5])
             else:
@@ -205,10 +217,12 @@ def rich_world(rng, d, unresolvable=True):
         if rng.random() < 0.5:
             out["extra" + str(rng.randrange(3))] = 1
         return out
-    insts = [inst() for _ in range(3)] + [rng.choice([1, "s", [], None])] + \
+    two = [{n: {"v": rng.choice([1, "s", [], None]), "w": rng.choice([1, "s", [], None])}} for n in ("sa", "sb", "na", "nb") if n in keep]
+    insts = [inst() for _ in range(3)] + rng.sample(two, min(len(two), 2)) + [rng.choice([1, "s", [], None])] + \
         rng.sample([True, 1, 1.0, False, 0, 0.0, [True], [1], [1.0], [0, False], "1", None], 4)
     refs = ["#/definitions/leaf", "#/definitions/deep", H + "h0.json", H + "h0.json#/definitions/x", H + "h1.json",
-            R.STORE_DIR + "s0.json", "#/definitions/nope", H + "missing.json", "#/definitions/deep/properties/x"]
+            R.STORE_DIR + "s0.json", "#/definitions/nope", H + "missing.json", "#/definitions/deep/properties/x",
+            R.STORE_DIR + "v1/item.json", R.STORE_DIR + "v2/doc.json#/definitions/item"]
     return World(d, S, store, hdocs, insts, refs)
 
 
